@@ -97,11 +97,23 @@ class BeartypeValidatorUnaryABC(BeartypeValidator, metaclass=ABCMeta):
     ) -> str:
 
         # Line diagnosing this object against this negated parent validator.
+        # True only if this object satisfies this validator if deciding so is
+        # safe *OR* "None" otherwise. See the comparable logic in the
+        # BeartypeValidatorBinaryABC.get_diagnosis() method.
+        is_obj_valid = None
+        if kwargs.get('is_shortcircuited', False):
+            try:
+                is_obj_valid = self.is_valid(obj)
+            except Exception:
+                pass
+        else:
+            is_obj_valid = self.is_valid(obj)
+
         line_outer_prefix = format_diagnosis_line(
             validator_repr='(',
             indent_level_outer=indent_level_outer,
             indent_level_inner=indent_level_inner,
-            is_obj_valid=self.is_valid(obj),
+            is_obj_valid=is_obj_valid,
         )
 
         # Line diagnosing this object against this non-negated child validator
